@@ -44,3 +44,16 @@ pub fn explode(
         .map_err(|e| e.to_string())?;
     Ok((a, w))
 }
+
+/// A direct-update target that records every `Update` a gate delivers.
+#[derive(Debug, Default)]
+pub struct Collector(pub std::sync::Mutex<Vec<crate::payload::Update>>);
+
+#[async_trait::async_trait]
+impl crate::comms::DirectUpdate for Collector {
+    async fn direct_update(&self, update: crate::payload::Update) {
+        self.0.lock().unwrap().push(update);
+    }
+}
+
+impl crate::comms::AnyDirectUpdate for Collector {}
